@@ -1,0 +1,37 @@
+// Copyright 2021 TiKV Project Authors.
+//
+// Licensed under the Apache License, Version 2.0 (the "License");
+// you may not use this file except in compliance with the License.
+// You may obtain a copy of the License at
+//
+//     http://www.apache.org/licenses/LICENSE-2.0
+//
+// Unless required by applicable law or agreed to in writing, software
+// distributed under the License is distributed on an "AS IS" BASIS,
+// See the License for the specific language governing permissions and
+// limitations under the License.
+
+//go:build verif
+// +build verif
+
+package cluster
+
+import "github.com/tikv/pd/server/core"
+
+// VerifGate, when set by a verification harness, is called at named points of the cluster code
+// (it may block to realise a chosen interleaving).
+var VerifGate func(point string)
+
+func verifGate(point string) {
+	if VerifGate != nil {
+		VerifGate(point)
+	}
+}
+
+// VerifProcessRegionHeartbeat exports processRegionHeartbeat (region heartbeat handling without the coordinator).
+func (c *RaftCluster) VerifProcessRegionHeartbeat(region *core.RegionInfo) error {
+	return c.processRegionHeartbeat(region)
+}
+
+// VerifCheckStores exports checkStores (the background job that buries empty offline stores).
+func (c *RaftCluster) VerifCheckStores() { c.checkStores() }
